@@ -461,7 +461,7 @@ func decChoice(r *bitReader, v reflect.Value, p Params, path string) error {
 	}
 	present := int(idx) + 1
 	v.Field(0).SetInt(int64(present))
-	fp, err := ParseTag(t.Field(present).Tag.Get("aper"))
+	fp, err := ParseTag(FieldTag(t, present))
 	if err != nil {
 		return &SchemaError{err.Error()}
 	}
@@ -483,7 +483,7 @@ func decSequence(r *bitReader, v reflect.Value, p Params, path string) error {
 	fps := make([]Params, n)
 	present := make([]bool, n)
 	for i := 0; i < n; i++ {
-		fp, err := ParseTag(t.Field(i).Tag.Get("aper"))
+		fp, err := ParseTag(FieldTag(t, i))
 		if err != nil {
 			return &SchemaError{err.Error()}
 		}
@@ -550,7 +550,7 @@ func decOpenType(r *bitReader, v reflect.Value, p Params, path string) error {
 		return err
 	}
 	for i := 1; i < t.NumField(); i++ {
-		fp, err := ParseTag(t.Field(i).Tag.Get("aper"))
+		fp, err := ParseTag(FieldTag(t, i))
 		if err != nil {
 			return &SchemaError{err.Error()}
 		}
